@@ -4,7 +4,7 @@ from ..rules import canon, pure, tables
 META = {
     "title": "MPS/MPO operations are faithful to their dense counterparts",
     "technique": "static analysis: interprocedural mutates-parameter effect summaries with flow-insensitive alias "
-                 "sets (frame condition), literal evaluation of the operator-symbol and basis-vector tables",
+                 "sets (frame condition), literal evaluation of the operator-symbol and basis-vector tables; QR gauge-move idiom table; loop-structure check of the term buffers",
     "design_ref": "DESIGN.md §5 C11",
     "explanation": "PURE: for every public method of MPS and MPO and every function of algebra.py / utils.py, the set "
                    "of parameters whose reachable tensors or object state may be mutated (augmented assignment, "
